@@ -31,8 +31,8 @@ CLAIMS = {
         "phi_pos/phi_neg/Phi vs Davydychev-Tausk as in 1607.06292 (68)-(70) through a chain of callee contracts); every near-degenerate EXPANSION (Fa11, Fb11, Fax, Fbx, I0y, I1y, Ixx, l00, "
         "l0v, lv0, the u==v series) has exactly the Taylor coefficients of the definition to the documented order, so limits are approached continuously; documented values at equal, "
         "1/4 and zero arguments.  BOUNDED stand-in (not a proof): size of the neglected remainders/cancellation on a deterministic sweep of the compiled functions against the 130-digit definition.",
-   note=NOTE_COMMON + "Truncation remainders and floating-point cancellation are only covered by the bounded sweep (labelled bounded; ~25000 tuples).  FCWu/FCWd/f_CSu/f_CSd: only the generic "
-        "difference quotient is under contract (f_CS* uninterpreted).  phi_neg's special branches (u==v, u==1) and the inversion identities of Phi are used as documented (A-SPECFN), checked only by the sweep. "
+   note=NOTE_COMMON + "Truncation remainders and floating-point cancellation are only covered by the bounded sweep (labelled bounded; ~25000 tuples).  f_CSd, f_CSu and phi_over_y equal their definitions of math/ffunctions.m (1607.06292 (61), (62)) on the generic paths and "
+        "phi_over_y returns the documented limits in its two guard windows (that these ARE the limits of Phi/y is A-SPECFN, checked by the replay sweep).  phi_neg's special branches (u==v, u==1) and the inversion identities of Phi are used as documented (A-SPECFN), checked only by the sweep. "
         "One open finding (FCWl for arguments >= 1e4), two fixed (Fa/Fb small arguments, Phi small-u expansion).",
    technique="relational symbolic execution + ring normalisation against transcribed definitions; Taylor-coefficient contracts via sympy series of the definition; bounded native sweep for remainders", design='5 C02'),
  'C03': dict(
